@@ -23,7 +23,8 @@ enum Case {
     /// `chain[0]` is the type the bits are first built as; each later entry is a conversion.
     Chain { bits: BitsDesc, chain: Vec<T>, by_from: bool },
     /// Run list (gap, len) pairs + tail; each run is set in the given pieces; `set_len_mode`: 0 none,
-    /// 1 set_len(current length) before every run, 2 set_len(next start) before every run, 3 set_len(current length) before every piece.
+    /// 1 set_len(current length) before every run, 2 set_len(next start) before every run, 3 set_len(current length) before every piece,
+    /// 4 two refused try_set calls before every piece.
     Decomp { pairs: Vec<(usize, usize)>, tail: usize, pieces: Vec<Vec<usize>>, set_len_mode: u8 },
 }
 
@@ -170,6 +171,16 @@ fn check_decomp(ctx: &mut Ctx, pairs: &[(usize, usize)], tail: usize, pieces: &[
                     // a no-op by documentation, also in the middle of a run that is still being extended
                     b.set_len(b.len());
                 }
+                if set_len_mode == 4 {
+                    // refused calls (a run that overflows behind a gap; a run before the current length) leave
+                    // no trace, also in the middle of a run that is still being extended
+                    if b.try_set(b.len() + 5, usize::MAX).is_ok() {
+                        return Some(format!("try_set({}, usize::MAX) accepted", b.len() + 5));
+                    }
+                    if b.len() > 0 && b.try_set(0, 1).is_ok() {
+                        return Some("try_set(0, 1) accepted on a non-empty builder".to_string());
+                    }
+                }
                 if let Err(e) = b.try_set(p, piece) {
                     return Some(format!("try_set({}, {}) refused: {}", p, piece, e));
                 }
@@ -289,7 +300,7 @@ fn explore(ctx: &mut Ctx) {
         loop {
             let pieces: Vec<Vec<usize>> = idx.iter().enumerate().map(|(k, &i)| per_run[k][i].clone()).collect();
             for tail in [0usize, 2] {
-                for mode in 0..4u8 {
+                for mode in 0..5u8 {
                     job += 1;
                     if ctx.mine_index(job) {
                         ctx.count("decompositions", 1);
